@@ -12,11 +12,102 @@ import (
 
 type (
 	Map       = sync.Map
-	Once      = sync.Once
 	WaitGroup = sync.WaitGroup
-	Pool      = sync.Pool
 	Locker    = sync.Locker
+	Cond      = sync.Cond
 )
+
+func NewCond(l Locker) *Cond { return sync.NewCond(l) }
+
+// Pool: the real sync.Pool hands items out per P and drops them at garbage collections — nondeterminism the explorer
+// does not own. This Pool is a deterministic LIFO stack that is emptied at the start of every controlled execution:
+// within one execution an item that was Put is handed to the very next Get of ANY thread (a legal sync.Pool
+// behaviour, and the one under which a use-after-Put shows), and nothing carries over between executions.
+type Pool struct {
+	New   func() any
+	items []any
+	epoch any
+}
+
+func (p *Pool) sync() {
+	if e := sched.Epoch(); e != p.epoch {
+		p.epoch, p.items = e, nil
+	}
+}
+
+func (p *Pool) Get() any {
+	if sched.Active() {
+		sched.Point()
+	}
+	p.sync()
+	if n := len(p.items); n > 0 {
+		x := p.items[n-1]
+		p.items = p.items[:n-1]
+		return x
+	}
+	if p.New != nil {
+		return p.New()
+	}
+	return nil
+}
+
+func (p *Pool) Put(x any) {
+	if x == nil {
+		return
+	}
+	p.sync()
+	p.items = append(p.items, x)
+	if sched.Active() {
+		sched.Point()
+	}
+}
+
+// Once runs f under a lock, and f is instrumented code with scheduling points: a thread preempted inside f while
+// another thread enters Do must be seen as BLOCKED by the scheduler (with the real sync.Once the second thread
+// would block for real and the execution would deadlock). Hence a logical Once on top of the logical Mutex.
+type Once struct {
+	m    Mutex
+	done bool
+}
+
+func (o *Once) Do(f func()) {
+	if sched.Active() {
+		sched.Point()
+	}
+	if o.done {
+		return
+	}
+	o.m.Lock()
+	defer o.m.Unlock()
+	if !o.done {
+		defer func() { o.done = true }()
+		f()
+	}
+}
+
+func OnceFunc(f func()) func() {
+	var o Once
+	return func() { o.Do(f) }
+}
+
+func OnceValue[T any](f func() T) func() T {
+	var o Once
+	var v T
+	return func() T {
+		o.Do(func() { v = f() })
+		return v
+	}
+}
+
+func OnceValues[T1, T2 any](f func() (T1, T2)) func() (T1, T2) {
+	var o Once
+	var v1 T1
+	var v2 T2
+	return func() (T1, T2) {
+		o.Do(func() { v1, v2 = f() })
+		return v1, v2
+	}
+}
 
 type Mutex struct {
 	real   sync.Mutex
